@@ -4,7 +4,6 @@ PROP = {
     "pkg": "internal/filtering",
     "files": ["filtering/c17_world_test.go", "filtering/c17_paths_test.go"],
     "level": "exploration",
-    "claimed": False,
     "technique": "property-based testing (rapid) with constructive expectations: the generator builds tree, "
                  "pattern list and location spelling from a known target, an independent glob matcher decides "
                  "membership; marker-rule tracing as the 'was this file read' oracle; stateful histories",
